@@ -501,7 +501,11 @@ func run(a *hlib.Args, e *hlib.Emitter) error {
 	scratch = filepath.Clean(scratch)
 	// fixed lines: the samples of data_test.go and the boundary shapes named in DESIGN.md
 	for i, s := range fixedLines {
-		for _, v2 := range []bool{false, true} {
+		for k, v2 := range []bool{false, true} {
+			// the samples of data_test.go under both key layouts, the boundary shapes under one
+			if i >= nSampleLines && k != i%2 && a.Tier != "thorough" {
+				continue
+			}
 			wf := !strings.HasPrefix(s, "?")
 			e.Emit(runLine([]byte(strings.TrimPrefix(s, "?")), v2, 123456+uint32(i), "fixed", wf))
 		}
